@@ -7,6 +7,13 @@
 //!   `bc from=<shape> to=<shape>`  → `<ints>` | `err`
 //!       element sequence of `Tensor::arange(|from|).reshaped(from).broadcast(to)` (the reference
 //!       broadcast of the Lean model is tied to the real view machinery).
+//!   `bop <Add|Sub|Mul> a=<base>@<size:stride,…> b=<base>@<size:stride,…>` → `shape=<shape> data=<ints>` | `err`
+//!       the real `rten::ops::{add,sub,mul}` (`binary_op`: fast / general dispatch) on i32 *views* with
+//!       arbitrary strides (permuted, stepped, stride 0, overlapping) over storage `a[i] = i+1`, `b[i] = 100(i+1)`.
+//!   `uop a=<base>@<size:stride,…>` → `shape=<shape> data=<ints>`   (`Neg` on such a view: `unary_op`)
+//!   `ti in=<base>@<dims> perms=<p;p;…>` (`r` = reverse) → `shape=… data=…` | `err` | `panic`
+//!       nested `TransformInputs(…(Identity))` wrappers: the transform list applied to a view.
+//!   `cov <names>` → `not-exercised=<names>`: registry operators (translate/registry_ops.py) without a case.
 //! Oracle-only requests (`#lay …`): for every catalogue operator, the same logical inputs presented as
 //! contiguous tensors (baseline) and as views of differently laid-out storage — permuted, transposed, strided
 //! (all axes / column-stepped / row-stepped), `with_capacity`-backed, broadcast (stride-0) — one data input at a time and all at once,
@@ -163,6 +170,9 @@ struct Ctx {
     exercised: BTreeSet<String>,
     noted: BTreeSet<String>,
 }
+
+/// Registry operators without a layout case (see checks/C14.json).
+const NOT_EXERCISED: &str = "not-exercised=ConcatFromSequence,ConstantOfShape,DFT,Dropout,GroupQueryAttention,If,Loop,MatMulNBits,MultiHeadAttention,Multinomial,NonMaxSuppression,RandomNormal,RandomNormalLike,RandomUniform,RandomUniformLike,Range,RotaryEmbedding,STFT,SequenceAt,SequenceConstruct,SequenceEmpty,SequenceErase,SequenceInsert,SequenceLength,SkipSimplifiedLayerNormalisation,SplitToSequence,com.microsoft.RotaryEmbedding";
 
 const LAYOUTS: [Var; 6] = [Var::Permuted, Var::Strided, Var::Spare, Var::Transposed, Var::ColStep, Var::RowStep];
 
@@ -339,6 +349,211 @@ fn bc_case(cx: &mut Ctx, from: &[usize], to: &[usize]) {
     cx.out.case(&req, &ans, None, ans != "err" && from != to);
 }
 
+/// A random view description: base offset and (size, stride) per axis.
+fn rand_view(rng: &mut Rng, shape: &[usize]) -> (usize, Vec<(usize, usize)>) {
+    let n = shape.len();
+    let mut strides = vec![0usize; n];
+    let mut acc = 1usize;
+    for d in (0..n).rev() {
+        strides[d] = acc;
+        acc *= shape[d].max(1);
+    }
+    match rng.below(6) {
+        0 => {}
+        1 => {
+            // permuted storage
+            let mut perm: Vec<usize> = (0..n).collect();
+            rng.shuffle(&mut perm);
+            let mut acc = 1usize;
+            for &d in perm.iter().rev() {
+                strides[d] = acc;
+                acc *= shape[d].max(1);
+            }
+        }
+        2 => {
+            for st in strides.iter_mut() {
+                *st *= 1 + rng.usize_below(3);
+            }
+        }
+        3 => {
+            for st in strides.iter_mut() {
+                if rng.chance(1, 2) {
+                    *st = 0;
+                }
+            }
+        }
+        4 => {
+            for st in strides.iter_mut() {
+                *st = rng.usize_below(7);
+            }
+        }
+        _ => {
+            if n > 0 {
+                let k = rng.usize_below(n);
+                strides[k] *= 2;
+            }
+        }
+    }
+    (rng.usize_below(4), shape.iter().copied().zip(strides).collect())
+}
+
+fn view_str(base: usize, dims: &[(usize, usize)]) -> String {
+    format!("{base}@{}", if dims.is_empty() { "-".to_string() } else { hcommon::join(dims.iter().map(|(a, b)| format!("{a}:{b}")), ",") })
+}
+
+fn storage_len(base: usize, dims: &[(usize, usize)]) -> usize {
+    if dims.iter().any(|d| d.0 == 0) {
+        base
+    } else {
+        base + dims.iter().map(|d| (d.0 - 1) * d.1).sum::<usize>() + 1
+    }
+}
+
+fn ints(v: &[i32]) -> String {
+    if v.is_empty() {
+        "-".into()
+    } else {
+        hcommon::join(v.iter(), ",")
+    }
+}
+
+fn bop_case(cx: &mut Ctx, rng: &mut Rng) {
+    let (sa, sb) = loop {
+        let (a, b) = bpair(rng);
+        if numel(&a) <= 64 && numel(&b) <= 64 {
+            break (a, b);
+        }
+    };
+    let (ba, da) = rand_view(rng, &sa);
+    let (bb, db) = rand_view(rng, &sb);
+    let opname = *rng.pick(&["Add", "Sub", "Mul"]);
+    let req = format!("bop {opname} a={} b={}", view_str(ba, &da), view_str(bb, &db));
+    let stor_a: Vec<i32> = (0..storage_len(ba, &da) as i32 + 2).map(|i| i + 1).collect();
+    let stor_b: Vec<i32> = (0..storage_len(bb, &db) as i32 + 2).map(|i| 100 * (i + 1)).collect();
+    let r = hcommon::catch(|| {
+        let va = rten_tensor::TensorView::from_slice_with_strides(
+            &sa[..],
+            &stor_a[ba..],
+            &da.iter().map(|d| d.1).collect::<Vec<_>>()[..],
+        )
+        .map_err(|e| format!("{e:?}"))?;
+        let vb = rten_tensor::TensorView::from_slice_with_strides(
+            &sb[..],
+            &stor_b[bb..],
+            &db.iter().map(|d| d.1).collect::<Vec<_>>()[..],
+        )
+        .map_err(|e| format!("{e:?}"))?;
+        let pool = rten::BufferPool::new();
+        let out = match opname {
+            "Add" => rten::ops::add(&pool, va.clone(), vb.clone()),
+            "Sub" => rten::ops::sub(&pool, va.clone(), vb.clone()),
+            _ => rten::ops::mul(&pool, va.clone(), vb.clone()),
+        }
+        .map_err(|e| format!("{e:?}"))?;
+        // independent oracle: the same operation on contiguous copies
+        let (ca, cb) = (va.to_tensor(), vb.to_tensor());
+        let refr = match opname {
+            "Add" => rten::ops::add(&pool, ca.view(), cb.view()),
+            "Sub" => rten::ops::sub(&pool, ca.view(), cb.view()),
+            _ => rten::ops::mul(&pool, ca.view(), cb.view()),
+        }
+        .map_err(|e| format!("{e:?}"))?;
+        let same = out.shape() == refr.shape() && out.iter().eq(refr.iter());
+        Ok::<_, String>((out.shape().to_vec(), out.iter().copied().collect::<Vec<i32>>(), same))
+    });
+    let (ans, fail) = match r {
+        Ok(Ok((shape, data, same))) => (
+            format!("shape={} data={}", shp(&shape), ints(&data)),
+            (!same).then_some("binary op on views differs from the same op on contiguous copies"),
+        ),
+        Ok(Err(_)) => ("err".to_string(), None),
+        Err(m) => (format!("panic {m}"), Some("binary op panicked")),
+    };
+    cx.out.bucket(&format!("bop:{}", ans.split('=').next().unwrap_or("")));
+    cx.out.case(&req, &ans, fail, ans.starts_with("shape"));
+}
+
+fn uop_case(cx: &mut Ctx, rng: &mut Rng) {
+    let sh = loop {
+        let s = rshape(rng, 4, 0);
+        if numel(&s) <= 64 {
+            break s;
+        }
+    };
+    let (base, dims) = rand_view(rng, &sh);
+    let req = format!("uop a={}", view_str(base, &dims));
+    let stor: Vec<i32> = (0..storage_len(base, &dims) as i32 + 2).map(|i| i + 1).collect();
+    let case = Case { name: "u", onnx: "Neg", domain: "", attrs: vec![], inputs: vec![Some(ti(rng, &[]))], n_out: 1, data_inputs: vec![] };
+    let op = cx.cache.get(&case).expect("Neg loads");
+    let r = hcommon::catch(|| {
+        let v = rten_tensor::TensorView::from_slice_with_strides(&sh[..], &stor[base..], &dims.iter().map(|d| d.1).collect::<Vec<_>>()[..])
+            .map_err(|e| format!("{e:?}"))?;
+        let ins = vec![Some(ValueView::from(v))];
+        let o = run_op(&*op, &ins, 1)?;
+        Ok::<_, String>(canon(&o[0]))
+    });
+    let ans = match r {
+        Ok(Ok(c)) => format!("shape={} data={}", shp(&c.shape), ints(&c.bits.iter().map(|&b| b as i32).collect::<Vec<_>>())),
+        Ok(Err(_)) => "err".to_string(),
+        Err(m) => format!("panic {m}"),
+    };
+    cx.out.bucket("uop");
+    cx.out.case(&req, &ans, None, true);
+}
+
+fn ti_case(cx: &mut Ctx, rng: &mut Rng) {
+    let sh = loop {
+        let s = rshape(rng, 4, 0);
+        if numel(&s) <= 48 {
+            break s;
+        }
+    };
+    let (base, dims) = rand_view(rng, &sh);
+    let k = 1 + rng.usize_below(3);
+    let mut perms: Vec<Option<Vec<usize>>> = vec![];
+    for _ in 0..k {
+        if rng.chance(1, 4) {
+            perms.push(None);
+        } else {
+            let mut p: Vec<usize> = (0..sh.len()).collect();
+            rng.shuffle(&mut p);
+            if rng.chance(1, 25) && !p.is_empty() {
+                p[0] = p[p.len() - 1]; // invalid on purpose
+            }
+            perms.push(Some(p));
+        }
+    }
+    let pstr: Vec<String> = perms
+        .iter()
+        .map(|p| match p {
+            None => "r".to_string(),
+            Some(p) => if p.is_empty() { "e".to_string() } else { hcommon::join(p.iter(), ",") },
+        })
+        .collect();
+    let req = format!("ti in={} perms={}", view_str(base, &dims), pstr.join(";"));
+    let stor: Vec<i32> = (0..storage_len(base, &dims) as i32 + 2).map(|i| i + 1).collect();
+    let case = Case { name: "id", onnx: "Identity", domain: "", attrs: vec![], inputs: vec![Some(ti(rng, &[]))], n_out: 1, data_inputs: vec![] };
+    let mut op = cx.cache.get(&case).expect("Identity loads");
+    // transforms are applied outermost wrapper first: wrap in reverse order
+    for p in perms.iter().rev() {
+        op = rten::verif::transform_inputs_permute(op, 0, p.clone());
+    }
+    let r = hcommon::catch(|| {
+        let v = rten_tensor::TensorView::from_slice_with_strides(&sh[..], &stor[base..], &dims.iter().map(|d| d.1).collect::<Vec<_>>()[..])
+            .map_err(|e| format!("{e:?}"))?;
+        let ins = vec![Some(ValueView::from(v))];
+        let o = run_op(&*op, &ins, 1)?;
+        Ok::<_, String>(canon(&o[0]))
+    });
+    let ans = match r {
+        Ok(Ok(c)) => format!("shape={} data={}", shp(&c.shape), ints(&c.bits.iter().map(|&b| b as i32).collect::<Vec<_>>())),
+        Ok(Err(_)) => "err".to_string(),
+        Err(_) => "panic".to_string(),
+    };
+    cx.out.bucket(&format!("ti:{}", ans.split('=').next().unwrap_or("")));
+    cx.out.case(&req, &ans, None, ans.starts_with("shape"));
+}
+
 fn main() {
     let args = hcommon::parse_args();
     hcommon::quiet_panics();
@@ -391,6 +606,15 @@ fn run(args: &Args) {
         fb_case(&mut cx, &from, &to);
         bc_case(&mut cx, &from, &to);
     }
+    // (a2) dispatch glue on arbitrary views: binary_op, unary_op, TransformInputs lists
+    let n_glue = if args.thorough { 300_000 } else { 30_000 };
+    for _ in 0..n_glue {
+        bop_case(&mut cx, &mut rng);
+    }
+    for _ in 0..n_glue / 3 {
+        uop_case(&mut cx, &mut rng);
+        ti_case(&mut cx, &mut rng);
+    }
     // (b) every catalogue operator under layout changes
     let per_op = if args.thorough { 10_000 } else { 1_000 };
     for name in all_names() {
@@ -400,6 +624,9 @@ fn run(args: &Args) {
         }
     }
     let names: Vec<String> = cx.exercised.iter().cloned().collect();
+    // registry coverage: the declared not-exercised set (a new registry entry without a case, or
+    // a case that stops loading, shows up as a disagreement with the generated registry list)
+    cx.out.case(&format!("cov {}", names.join(",")), NOT_EXERCISED, None, true);
     cx.out.note(&format!("{} operators exercised: {}", names.len(), names.join(",")));
     cx.out.finish("same logical inputs as contiguous / permuted / strided / with_capacity / broadcast views and through TransformInputs: equal outputs bit-for-bit (NaNs identified); model: fast_broadcast_cycles_repeats and the reference broadcast");
 }
